@@ -31,3 +31,7 @@ func (c *Calcium) VerifSetWAL(w wal.WAL) { c.wal = w }
 
 // VerifPoolRunning reports the number of running goroutines of calcium's worker pool.
 func (c *Calcium) VerifPoolRunning() int { return c.pool.Running() }
+
+// VerifPoolInvoke submits f to calcium's worker pool (the harness occupies workers to exercise the paths
+// taken when the non-blocking pool refuses a task).
+func (c *Calcium) VerifPoolInvoke(f func()) error { return c.pool.Invoke(f) }
